@@ -100,6 +100,15 @@ class WrappingMatcher(mcore.Matcher):
         return self.child.supports_block_quality()
 
     def skip_to_quality(self, minquality):
+        if not self.boost:
+            # Every posting has quality 0: nothing is better than a
+            # non-negative threshold, everything is better than a negative one
+            skipped = 0
+            if minquality >= 0:
+                while self.child.is_active():
+                    self.child.next()
+                    skipped += 1
+            return skipped
         return self.child.skip_to_quality(minquality / self.boost)
 
     def max_quality(self):
